@@ -65,12 +65,12 @@ def distance_info(run, it, fq, D, frame_loop, part_loop, loc):
     ok = pd is not None and pd["snap"] == snap and {show(pd["left"]), show(pd["right"])} == {show(FULL), show(i)}
     run.ob("R-PBC", fq, "difference", ok, "distance vector = positions of all particles - position of the centre particle i, same frame",
            show(diff)[:120], witness=None if ok else "difference is not between all particles and particle i of the current frame", loc=loc)
-    okh = hm == ("attr", snap, "hmatrix")
+    okh = eqv(hm, ("attr", snap, "hmatrix"))
     run.ob("R-PBC", fq, "cell", okh, "minimum image uses the current frame's cell", show(hm)[:70],
-           witness=None if okh else "cell of another frame used: wrong images when the box changes between frames", loc=loc)
-    okm = ppp == ("sym", "ppp")
+           witness=None if okh else "cell of another frame used: wrong images when the box changes between frames", loc=loc, sound=True)
+    okm = eqv(ppp, ("sym", "ppp"))
     run.ob("R-PBC", fq, "mask", okm, "the caller's periodicity mask is forwarded", show(ppp)[:50] if ppp else "default mask",
-           witness=None if okm else "non-periodic axes are wrapped (default mask used)", loc=loc)
+           witness=None if okm else "non-periodic axes are wrapped (default mask used)", loc=loc, sound=True)
     return ok
 
 
@@ -339,12 +339,12 @@ def check_nnearests(run, pkg):
     frame_loop, part_loop = it.loops[ev.loops[0]], it.loops[ev.loops[1]]
     snap, i = frame_loop.target, part_loop.target
     loc = loc_of(it, ev)
-    okf = frame_loop.iter == ("attr", SN, "snapshots")
+    okf = eqv(frame_loop.iter, ("attr", SN, "snapshots"))
     run.ob("R-LOOPDOM", fq, "frames", okf, "every frame is processed in order", show(frame_loop.iter)[:60],
-           witness=None if okf else "frames skipped / reordered", loc=fi.loc(frame_loop.node))
-    okp = part_loop.iter == ("call", "builtins.range", (("attr", snap, "nparticle"),), ())
+           witness=None if okf else "frames skipped / reordered", loc=fi.loc(frame_loop.node), sound=True)
+    okp = eqv(part_loop.iter, ("call", "builtins.range", (("attr", snap, "nparticle"),), ()))
     run.ob("R-LOOPDOM", fq, "particles", okp, "every particle of the frame gets a list", show(part_loop.iter)[:60],
-           witness=None if okp else "particles skipped", loc=fi.loc(part_loop.node))
+           witness=None if okp else "particles skipped", loc=fi.loc(part_loop.node), sound=True)
     arr = ev.data["target"][1]
     row, col = ev.data["target"][2][1]
     val = ev.data["value"]
@@ -391,17 +391,17 @@ def check_nnearests(run, pkg):
     run.ob("R-IDX", fq, "nearest:one-based", okb, "ids written to the file are 1-based (index + 1)", f"offset +{st['base']}",
            witness=None if okb else (conc or "reader subtracts 1: every neighbour index is shifted"), loc=loc)
     # placement: row i, columns 2: ; id column, cn column
-    okr = row == i and col == ("slice", C(2), NONE, NONE)
+    okr = tri_lazy(lambda: (True if (row == i) else None), lambda: eqv(col, ("slice", C(2), NONE, NONE)))
     run.ob("R-IDX", fq, "nearest:row", okr, "the list of particle i is stored in row i, columns 2..", show(ev.data["target"][2])[:50],
-           witness=None if okr else "neighbours stored in another row / overlapping the id or cn column", loc=loc)
+           witness=None if okr else "neighbours stored in another row / overlapping the id or cn column", loc=loc, sound=True)
     sh = arr[2][0] if arr[0] == "call" and arr[1] == "numpy.zeros" and arr[2] else None
-    oksh = sh is not None and sh[0] == "tuple" and sh[1][0] == ("attr", snap, "nparticle") and sym_int(sh[1][1], table) == Ns + 2
+    oksh = tri_lazy(lambda: (True if (sh is not None) else None), lambda: (True if (sh[0] == "tuple") else None), lambda: eqv(sh[1][0], ("attr", snap, "nparticle")), lambda: (True if (sym_int(sh[1][1], table) == Ns + 2) else None))
     run.ob("R-PROTO", fq, "nearest:width", bool(oksh), "a row has 2 + N entries: id, cn, N neighbours", show(sh)[:60] if sh else "?",
-           witness=None if oksh else "row width differs from 2 + N", loc=loc)
+           witness=None if oksh else "row width differs from 2 + N", loc=loc, sound=True)
     st_id = [e for e in stores(it) if e.data["target"][1] == arr and e.data["target"][2] == ("tuple", (FULL, C(0)))]
-    ok_id = len(st_id) == 1 and st_id[0].data["value"] == ("bin", "+", ("call", "numpy.arange", (("attr", snap, "nparticle"),), ()), C(1))
+    ok_id = tri_lazy(lambda: (True if (len(st_id) == 1) else None), lambda: eqv(st_id[0].data["value"], ("bin", "+", ("call", "numpy.arange", (("attr", snap, "nparticle"),), ()), C(1))))
     run.ob("R-IDX", fq, "nearest:id-column", ok_id, "column 0 holds the 1-based particle id of the row", key_of(st_id[0]) if st_id else "no store",
-           witness=None if ok_id else "row k is labelled with another id: the reader places it in the wrong row", loc=loc)
+           witness=None if ok_id else "row k is labelled with another id: the reader places it in the wrong row", loc=loc, sound=True)
     st_cn = [e for e in stores(it) if e.data["target"][1] == arr and e.data["target"][2] == ("tuple", (FULL, C(1)))]
     ok_cn = len(st_cn) == 1 and st_cn[0].data["value"] == N
     run.ob("R-PROTO", fq, "nearest:cn-column", ok_cn, "column 1 holds the coordination number N", key_of(st_cn[0]) if st_cn else "no store",
@@ -430,14 +430,14 @@ def check_nnearests(run, pkg):
     run.ob("R-PROTO", fq, "nearest:newline", ok_nl, "the array text is newline-terminated (next frame's header starts a new line)", str([s[0] for s in segs]),
            witness=None if ok_nl else "the next header is glued to the last row: the reader loses a line in multi-frame files", loc=loc_of(it, w))
     rs = [s for s in segs if s[0] == "resub"]
-    ok_rs = len(rs) == 1 and rs[0][1] == C(r"[\[\]]") and rs[0][2] == C(" ")
+    ok_rs = tri_lazy(lambda: (True if (len(rs) == 1) else None), lambda: eqv(rs[0][1], C(r"[\[\]]")), lambda: eqv(rs[0][2], C(" ")))
     run.ob("R-PROTO", fq, "nearest:brackets", ok_rs, "the brackets of the array rendering are blanked so every row is `id cn ids...`", show(rs[0][1]) if rs else "no substitution",
-           witness=None if ok_rs else "rows begin with '[': int('[1') fails / tokens shift", loc=loc_of(it, w))
+           witness=None if ok_rs else "rows begin with '[': int('[1') fails / tokens shift", loc=loc_of(it, w), sound=True)
     po = [e for e in it.events if e.kind == "call" and e.data["call"][1] == "numpy.set_printoptions" and e.seq < w.seq]
-    okpo = bool(po) and kw(po[-1].data["call"], "threshold") == ("mod", "numpy.inf") and kw(po[-1].data["call"], "linewidth") == ("mod", "numpy.inf")
+    okpo = tri_lazy(lambda: (True if (bool(po)) else None), lambda: eqv(kw(po[-1].data["call"], "threshold"), ("mod", "numpy.inf")), lambda: eqv(kw(po[-1].data["call"], "linewidth"), ("mod", "numpy.inf")))
     run.ob("R-PROTO", fq, "nearest:printoptions", okpo, "array2string is preceded by set_printoptions(threshold=inf, linewidth=inf): one full row per line",
            show(po[-1].data["call"])[:80] if po else "not set", witness=None if okpo else
-           "more than 1000 entries are summarised with '...', rows longer than 75 characters are wrapped: lines no longer map to particles", loc=loc_of(it, w))
+           "more than 1000 entries are summarised with '...', rows longer than 75 characters are wrapped: lines no longer map to particles", loc=loc_of(it, w), sound=True)
     check_header(run, it, fq, writes, frame_loop, w.seq)
     check_writer_handle(run, it, fq, opens[0], frame_loop)
 
@@ -466,12 +466,12 @@ def check_cutoff(run, pkg, name, typed):
         raise AnalysisError(f"{fq}: no per-particle writes found")
     frame_loop, part_loop = it.loops[rows[0].loops[0]], it.loops[rows[0].loops[1]]
     snap, i = frame_loop.target, part_loop.target
-    okf = frame_loop.iter == ("attr", SN, "snapshots")
+    okf = eqv(frame_loop.iter, ("attr", SN, "snapshots"))
     run.ob("R-LOOPDOM", fq, "frames", okf, "every frame is processed in order", show(frame_loop.iter)[:60],
-           witness=None if okf else "frames skipped / reordered", loc=fi.loc(frame_loop.node))
-    okp = part_loop.iter == ("call", "builtins.range", (("attr", snap, "nparticle"),), ())
+           witness=None if okf else "frames skipped / reordered", loc=fi.loc(frame_loop.node), sound=True)
+    okp = eqv(part_loop.iter, ("call", "builtins.range", (("attr", snap, "nparticle"),), ()))
     run.ob("R-LOOPDOM", fq, "particles", okp, "every particle of the frame gets a line", show(part_loop.iter)[:60],
-           witness=None if okp else "particles skipped", loc=fi.loc(part_loop.node))
+           witness=None if okp else "particles skipped", loc=fi.loc(part_loop.node), sound=True)
     # line template
     segs = []
     for w in rows:
@@ -493,9 +493,9 @@ def check_cutoff(run, pkg, name, typed):
     if not ok_shape:
         return
     id_t, cn_t = ints[0][1], ints[1][1]
-    okid = id_t in (("bin", "+", i, C(1)), ("bin", "+", C(1), i))
+    okid = eqv(id_t, ("bin", "+", i, C(1)), ("bin", "+", C(1), i))
     run.ob("R-IDX", fq, "row:id", okid, "the first field is the 1-based id of the centre particle (i + 1)", show(id_t),
-           witness=None if okid else "reader computes row = id - 1: lines land in the wrong rows (row -1 for i = 0)", loc=loc)
+           witness=None if okid else "reader computes row = id - 1: lines land in the wrong rows (row -1 for i = 0)", loc=loc, sound=True)
     lst = joins[0][2]
     ops = []
     decode(lst, ops)
@@ -518,9 +518,9 @@ def check_cutoff(run, pkg, name, typed):
     run.ob("R-CMP", fq, "cutoff:inclusive", okc, "a particle at exactly the cutoff distance is a neighbour (d <= r_c)", f"d {op} cutoff",
            witness=None if okc else ("d = r_c exactly: excluded, the property requires it" if op == "<" else f"comparator {op} selects the particles outside the cutoff"), loc=loc)
     if not typed:
-        okrc = rc == ("sym", "r_cut")
+        okrc = eqv(rc, ("sym", "r_cut"))
         run.ob("R-CMP", fq, "cutoff:value", okrc, "the distance is compared with the caller's r_cut", show(rc)[:60],
-               witness=None if okrc else "another cutoff is applied", loc=loc)
+               witness=None if okrc else "another cutoff is applied", loc=loc, sound=True)
     else:
         check_type_cutoffs(run, it, fq, rc, snap, i, loc)
     st, problems = run_pipeline(ops, D, {}, None)
@@ -567,9 +567,9 @@ def check_cutoff(run, pkg, name, typed):
     okcn = cn_t in want or (cn_t[0] == "call" and cn_t[1] == "builtins.int" and cn_t[2] and cn_t[2][0] in want)
     if not okcn and sel_term is not None:
         # sum of the mask - 1
-        okcn = cn_t in (("bin", "-", ("call", ".sum", (mask,), ()), C(1)), ("bin", "-", ("call", "numpy.count_nonzero", (mask,), ()), C(1)))
+        okcn = eqv(cn_t, ("bin", "-", ("call", ".sum", (mask,), ()), C(1)), ("bin", "-", ("call", "numpy.count_nonzero", (mask,), ()), C(1)))
     run.ob("R-PROTO", fq, "row:cn", okcn, "the cn field equals the number of ids on the line (selected particles minus the particle itself)", show(cn_t)[:80],
-           witness=None if okcn else "cn differs from the number of ids that follow: the reader slices item[2:cn+2] and mis-sizes the row", loc=loc)
+           witness=None if okcn else "cn differs from the number of ids that follow: the reader slices item[2:cn+2] and mis-sizes the row", loc=loc, sound=True)
     first_row = min(w.seq for w in rows)
     check_header(run, it, fq, writes, frame_loop, first_row)
     check_writer_handle(run, it, fq, opens[0], frame_loop)
@@ -612,9 +612,9 @@ def check_type_cutoffs(run, it, fq, rc, snap, i, loc):
     """rc must be the row `centre type - 1` of a table whose [a, j] entry is r_cut[a, type_j - 1]."""
     ptype_cur = ("attr", snap, "particle_type")
     ptype0 = ("attr", ("sub", ("attr", SN, "snapshots"), C(0)), "particle_type")
-    ok_row = rc[0] == "sub" and rc[2] in (("bin", "-", ("sub", ptype_cur, i), C(1)), ("bin", "-", ("sub", ptype0, i), C(1)))
+    ok_row = tri_lazy(lambda: (True if (rc[0] == "sub") else None), lambda: eqv(rc[2], ("bin", "-", ("sub", ptype_cur, i), C(1)), ("bin", "-", ("sub", ptype0, i), C(1))))
     run.ob("R-IDX", fq, "typed:row", ok_row, "the cutoff row is selected by the centre particle's type - 1", show(rc[2])[:70] if rc[0] == "sub" else show(rc)[:70],
-           witness=None if ok_row else "types are 1-based, table rows 0-based: type K indexes past the table / type 1 uses row of type 2", loc=loc)
+           witness=None if ok_row else "types are 1-based, table rows 0-based: type K indexes past the table / type 1 uses row of type 2", loc=loc, sound=True)
     if rc[0] != "sub":
         return
     table = rc[1]
@@ -765,9 +765,9 @@ def check_reader_rows(run, it, fq, nl, rel, case, protocol):
                witness=None if ok else "frame k+1 starts at the wrong line of a multi-frame file", loc=fi.loc())
         if ok:
             L = it.loops[rows[0].loops[0]]
-            okd = L.iter == ("call", "builtins.range", (("sym", "nparticle"),), ())
+            okd = eqv(L.iter, ("call", "builtins.range", (("sym", "nparticle"),), ()))
             run.ob("R-PROTO", fq, "lines:count", okd, "exactly nparticle particle lines are consumed", show(L.iter)[:50],
-                   witness=None if okd else "too few/many lines consumed: the next frame starts mid-frame", loc=fi.loc(L.node))
+                   witness=None if okd else "too few/many lines consumed: the next frame starts mid-frame", loc=fi.loc(L.node), sound=True)
             okf = all(e.data["call"][2][0] == ("sym", "f") for e in rl)
             run.ob("R-HANDLE", fq, "reader:handle", okf, "lines are read from the caller's open handle (file position carries over to the next frame)",
                    show(rl[0].data["call"])[:50], witness=None if okf else "file re-opened inside the reader: every call returns frame 0", loc=fi.loc())
@@ -801,9 +801,9 @@ def check_reader_rows(run, it, fq, nl, rel, case, protocol):
     arr = _strip_nonline(ce.data["target"][1])
     shp = arr[2][0] if arr[0] == "call" and arr[1] == "numpy.zeros" and arr[2] else None
     if protocol:
-        oksh = shp is not None and shp[0] == "tuple" and len(shp[1]) == 2 and shp[1][0] == ("sym", "nparticle") and sp.expand(reader_sym(shp[1][1], info) - MS - 1) == 0
+        oksh = tri_lazy(lambda: (True if (shp is not None) else None), lambda: (True if (shp[0] == "tuple") else None), lambda: (True if (len(shp[1]) == 2) else None), lambda: eqv(shp[1][0], ("sym", "nparticle")), lambda: (True if (sp.expand(reader_sym(shp[1][1], info) - MS - 1) == 0) else None))
         run.ob("R-PROTO", fq, "alloc", bool(oksh), "the result starts as zeros of shape (nparticle, Nmax + 1): unused entries are zero padding", show(shp)[:60] if shp else show(arr)[:60],
-               witness=None if oksh else "padding is not zero / rows or columns missing", loc=fi.loc())
+               witness=None if oksh else "padding is not zero / rows or columns missing", loc=fi.loc(), sound=True)
 
     def tokens_of(t):
         """item[k] -> (line, k)"""
@@ -839,11 +839,11 @@ def check_reader_rows(run, it, fq, nl, rel, case, protocol):
     try:
         lo = sp.Integer(0) if sl[1] == NONE else reader_sym(sl[1], info)
         hi = reader_sym(sl[2], info)
-        oks = sp.simplify(sub_(lo) - 1) == 0 and sp.simplify(sub_(hi) - 1 - sub_(c_want)) == 0 and sl[3] == NONE
+        oks = tri_lazy(lambda: (True if (sp.simplify(sub_(lo) - 1) == 0) else None), lambda: (True if (sp.simplify(sub_(hi) - 1 - sub_(c_want)) == 0) else None), lambda: eqv(sl[3], NONE))
     except AnalysisError:
         oks = None
     run.ob("R-PROTO", fq, f"{case}:target", oks, f"the ids fill columns 1 .. {'cn' if le else 'Nmax'} (column 0 is the count)", show(_strip_nonline(sl))[:60],
-           witness=None if oks else ("cn=3: columns " + (f"[{lo}, {hi})" if oks is not None else "?") + " written instead of [1, 4)"), loc=loc_of(it, le_))
+           witness=None if oks else ("cn=3: columns " + (f"[{lo}, {hi})" if oks is not None else "?") + " written instead of [1, 4)"), loc=loc_of(it, le_), sound=True)
     # list source
     val = _strip_nonline(le_.data["value"])
     oksrc = okelt = None
@@ -856,13 +856,13 @@ def check_reader_rows(run, it, fq, nl, rel, case, protocol):
             try:
                 slo = sp.Integer(0) if tk[1][1] == NONE else reader_sym(tk[1][1], info)
                 shi = reader_sym(tk[1][2], info)
-                oksrc = sp.simplify(sub_(slo) - 2) == 0 and sp.simplify(sub_(shi) - 2 - sub_(c_want)) == 0 and tk[1][3] == NONE and _strip_nonline(tk[0]) == _strip_nonline(row_line)
+                oksrc = tri_lazy(lambda: (True if (sp.simplify(sub_(slo) - 2) == 0) else None), lambda: (True if (sp.simplify(sub_(shi) - 2 - sub_(c_want)) == 0) else None), lambda: eqv(tk[1][3], NONE), lambda: (True if (_strip_nonline(tk[0]) == _strip_nonline(row_line)) else None))
             except AnalysisError:
                 oksrc = None
         fl = ("call", "builtins.float", (cvar,), ())
         il = ("call", "builtins.int", (cvar,), ())
         if nl:
-            okelt = elt in (("bin", "-", fl, C(1)), ("bin", "-", il, C(1)))
+            okelt = eqv(elt, ("bin", "-", fl, C(1)), ("bin", "-", il, C(1)))
             if not okelt and elt in (fl, il):
                 okelt = False
             elif not okelt:
@@ -877,10 +877,10 @@ def check_reader_rows(run, it, fq, nl, rel, case, protocol):
                 okelt = None
     run.ob("R-PROTO", fq, f"{case}:source", oksrc, f"the ids are tokens 2 .. {'cn' if le else 'Nmax'}+1 of the particle's own line", detail,
            witness=None if oksrc else ("Nmax=2, line `1 4 9 8 7 6`: tokens kept are not [9, 8] (the first Nmax)" if not le else "cn=3: tokens other than item[2:5] are stored"),
-           loc=loc_of(it, le_))
+           loc=loc_of(it, le_), sound=True)
     run.ob("R-IDX", fq, f"{case}:shift", okelt, "neighbour ids are shifted to 0-based" if nl else "weights / bond properties are stored unshifted (as floats)",
            show(val[2])[:60] if val[0] == "comp" else detail, witness=None if okelt else
-           ("neighbour id 1 in the file must become index 0" if nl else "a weight file row `1 2 0.5 0.5` must give 0.5, 0.5 (unshifted, not truncated to int)"), loc=loc_of(it, le_))
+           ("neighbour id 1 in the file must become index 0" if nl else "a weight file row `1 2 0.5 0.5` must give 0.5, 0.5 (unshifted, not truncated to int)"), loc=loc_of(it, le_), sound=True)
 
 
 def kS_():
@@ -914,7 +914,7 @@ def check_reader_return(run, it, fq, nl, trim):
             sl = ret[2][1][1]
             try:
                 hi = reader_sym(sl[2], {})
-                ok = sl[1] in (NONE, C(0)) and sl[3] == NONE and sp.expand(hi - mxS - 1) == 0 and ret[1][0] == "call" and ret[1][1] == "numpy.zeros"
+                ok = tri_lazy(lambda: eqv(sl[1], NONE, C(0)), lambda: eqv(sl[3], NONE), lambda: (True if (sp.expand(hi - mxS - 1) == 0) else None), lambda: (True if (ret[1][0] == "call") else None), lambda: (True if (ret[1][1] == "numpy.zeros") else None))
             except AnalysisError:
                 ok = None
         elif arr_ok:
@@ -922,18 +922,18 @@ def check_reader_return(run, it, fq, nl, trim):
         else:
             ok = None
         run.ob("R-PROTO", fq, f"{case}:trim", ok, "when the largest coordination number is below Nmax the array is cut to 1 + max_cn columns", detail,
-               witness=None if ok else "max cn 4, Nmax 200: returned width is not 5", loc=fi.loc())
+               witness=None if ok else "max cn 4, Nmax 200: returned width is not 5", loc=fi.loc(), sound=True)
     else:
         ok = arr_ok
         if not ok and ret[0] == "sub" and ret[2][0] == "tuple" and len(ret[2][1]) == 2 and ret[2][1][0] == FULL and ret[2][1][1][0] == "slice" \
                 and ret[1][0] == "call" and ret[1][1] == "numpy.zeros":
             sl = ret[2][1][1]
             try:
-                ok = sl[1] in (NONE, C(0)) and sl[3] == NONE and sub_(reader_sym(sl[2], {}) - MS - 1) == 0
+                ok = tri_lazy(lambda: eqv(sl[1], NONE, C(0)), lambda: eqv(sl[3], NONE), lambda: (True if (sub_(reader_sym(sl[2], {}) - MS - 1) == 0) else None))
             except AnalysisError:
                 ok = None
         run.ob("R-PROTO", fq, f"{case}:keep", ok if ok else (False if ret[0] == "sub" and ok is not None else None), "when some particle reaches Nmax the full Nmax + 1 columns are returned", show(ret)[:90],
-               witness=None if ok else "columns dropped although they hold neighbours", loc=fi.loc())
+               witness=None if ok else "columns dropped although they hold neighbours", loc=fi.loc(), sound=True)
 
 
 # ====================================================================== consumers
@@ -964,7 +964,7 @@ def check_handles(run, pkg):
             mode = kw(o.data["call"], "mode", 1) or C("r")
             inner = [l for l in e.loops if l not in o.loops]
             ok = not set(o.loops) & set(e.loops) or all(l in e.loops for l in o.loops) and len(o.loops) == 0
-            ok = (not o.loops) and len(e.loops) <= 1 and mode == C("r") and o.seq < e.seq
+            ok = tri_lazy(lambda: (True if (not o.loops) else None), lambda: (True if (len(e.loops) <= 1) else None), lambda: eqv(mode, C("r")), lambda: (True if (o.seq < e.seq) else None))
             wit = None
             if not ok:
                 if o.loops:
@@ -974,7 +974,7 @@ def check_handles(run, pkg):
                 else:
                     wit = "handle not opened for reading before the read"
             run.ob("R-HANDLE", fq, key, ok, "the file is opened once outside the frame loop and read_neighbors is called at most once per frame with that handle",
-                   f"open in loops {o.loops}, read in loops {e.loops}, mode {show(mode)}", witness=wit, loc=loc_of(it, e))
+                   f"open in loops {o.loops}, read in loops {e.loops}, mode {show(mode)}", witness=wit, loc=loc_of(it, e), sound=True)
             # frames are consumed in order: if in a loop, the loop runs over frames in order
             if e.loops:
                 L = it.loops[e.loops[0]]
